@@ -138,15 +138,15 @@ package cache
 //@   ensures partial_archive_is_aborted [C13]: failed ==> called("cancel")
 //@   returnsite partial_archive_is_aborted_at_return [C13]: !failed || called("cancel")
 //
-// HTTP cache: the same requirement. The real code only logs the error and lets the deferred Close calls end
-// the gzip/tar stream normally, so the server receives a well-formed but incomplete archive: a recorded
-// known finding (region: the walk failed).
-//@ spec walkFailed(failed bool) bool = failed
+// HTTP cache: the same requirement. As soon as an output cannot be read the pipe feeding the request body is
+// closed WITH THE ERROR (so the request fails instead of delivering a well-formed but incomplete archive) and
+// nothing more is written.
 //@ func (httpCache).write
 //@   requires target != nil && !failed
 //@   opt nopanic=off
+//@   invariant "range files" no_failure_so_far: !failed
 //@   callsite fs.Walk trackresult failed bool: failed || result != nil
-//@   ensures partial_archive_is_aborted [C13 except=walkFailed]: failed ==> called("abort")
+//@   ensures partial_archive_is_aborted [C13]: failed ==> called("(PipeWriter).CloseWithError")
 //
 // Retrieval: an entry that cannot be unpacked completely is a miss.
 // Ghost `stepfailed`: creating a directory, opening, copying, closing or linking some member failed. A hit
